@@ -310,6 +310,7 @@ func cmdCheck(args []string) int {
 	violations := 0
 	replayDir := filepath.Join(*verifDir, "replays", *prop)
 	knownPrinted := map[string]bool{}
+	knownEv := []map[string]any{}
 	for _, f := range failures {
 		var kf *KnownFinding
 		for i := range known.Findings {
@@ -324,6 +325,9 @@ func cmdCheck(args []string) int {
 				if !knownPrinted[kf.Obligation] {
 					fmt.Printf("KNOWN-FINDING: property=%s %s: %s (witness %s re-confirmed on the real code)\n", *prop, kf.Obligation, kf.What, kf.Witness)
 					knownPrinted[kf.Obligation] = true
+					// a listed finding is reported on its own, not among the obligations the run claims to have decided as proved
+					total--
+					knownEv = append(knownEv, map[string]any{"obligation": kf.Obligation, "what": kf.What, "witness": kf.Witness, "replay_test": kf.ReplayTest, "reconfirmed_on_real_code": true})
 				}
 				continue
 			}
@@ -396,6 +400,7 @@ func cmdCheck(args []string) int {
 			"abstracted":               abstrL,
 			"residue_not_decided":      pc.Residue,
 			"bounded_standins":         pc.Bounded,
+			"known_findings":           knownEv,
 			"solver_ms_total":          solverMs,
 			"timeout_s":                timeout,
 			"explanation":              "every obligation generated from /repo's working tree for the functions and lemmas tagged with this property; proved = unsat from at least one of z3 5.1 / z3 4.8 / cvc5 1.0",
